@@ -3,16 +3,15 @@
 d=$1; shift
 props=${@:-$(jq -r '.checks[].property_id' /verif/MANIFEST.json)}
 cd /repo || exit 9
-if ! git apply --check "$d/patch.diff" 2>/dev/null; then
-  if ! git apply --3way --check "$d/patch.diff" 2>/dev/null; then echo "PATCH DOES NOT APPLY: $d"; exit 8; fi
-fi
-git apply "$d/patch.diff" 2>/dev/null || git apply --3way "$d/patch.diff"
+pf="$d/patch.diff"
+[ -f "$d/patch.ported.diff" ] && pf="$d/patch.ported.diff"
+if ! git apply --check "$pf" 2>/dev/null; then echo "PATCH DOES NOT APPLY: $pf"; exit 8; fi
+git apply "$pf"
 caught=""
 for p in $props; do
   out=$(cd /verif && ./check $p 2>&1); rc=$?
   if [ $rc -eq 1 ]; then caught="$caught $p"; echo "== $p exit 1"; echo "$out" | grep -B3 VIOLATION | grep -v "^--" | head -12; 
   elif [ $rc -eq 2 ]; then echo "== $p ANALYSIS-ERROR"; echo "$out" | grep ANALYSIS-ERROR | head -3; fi
 done
-git checkout -- . ; git clean -fdq openapi_python_client
-git reset -q
+git reset -q --hard HEAD; git clean -fdq openapi_python_client
 echo "CAUGHT-BY:${caught:- none}"
